@@ -183,8 +183,8 @@ CodeStage ==
   IF rt # "" /\ AnyOffsub THEN "decode"
   ELSE IF Len(bsb) # S.nbCommit THEN "nb-bsb22"
   ELSE IF Len(pub) # S.nbPub THEN "witness-size"
-  ELSE IF AnyOffsub THEN "subgroup"
   ELSE IF Len(cv) # 6 + S.nbCommit THEN "claimed-values"
+  ELSE IF AnyOffsub THEN "subgroup"
   ELSE IF ~( /\ ChallengesGenuine /\ assign = "ok"
              /\ (S.nbCommit > 0 => optHtf = "match")
              /\ \A k \in 1..6 : cv[k] = "gen"
